@@ -1,6 +1,7 @@
 package main
 
 import (
+	"strconv"
 	"encoding/json"
 	"flag"
 	"fmt"
@@ -31,6 +32,7 @@ type Result struct {
 	Vacuity   bool     `json:"vacuity,omitempty"`
 	Bounded   bool     `json:"bounded,omitempty"`
 	Location  string   `json:"contract"`
+	BudgetMs  int64    `json:"-"` // solver budget of this obligation (item option timeout=<seconds>); 0 = default
 }
 
 type runCfg struct {
@@ -58,6 +60,7 @@ func RunHarness(p *Program, h *Harness, cfg runCfg) (res *Result) {
 		return
 	}
 	c := NewCtx(p)
+	c.Reindex = h.Item.Logical && os.Getenv("GOVC_NOREINDEX") == ""
 	x := NewExec(c, p)
 	x.h = h
 	if h.Item.Options["frame"] == "off" {
@@ -67,6 +70,14 @@ func RunHarness(p *Program, h *Harness, cfg runCfg) (res *Result) {
 		x.assumeFns = map[string]bool{}
 		for _, f := range strings.Split(a, ",") {
 			x.assumeFns[strings.TrimSpace(f)] = true
+		}
+	}
+	if a := h.Item.Options["assumerec"]; a != "" {
+		if x.assumeFns == nil {
+			x.assumeFns = map[string]bool{}
+		}
+		for _, f := range strings.Split(a, ",") {
+			x.assumeFns["rec:"+strings.TrimSpace(f)] = true
 		}
 	}
 	if a := h.Item.Options["tailrec"]; a != "" {
@@ -92,6 +103,11 @@ func RunHarness(p *Program, h *Harness, cfg runCfg) (res *Result) {
 		args[i] = v
 		if !x.bindIteratorParam(st, prm.Type(), v) {
 			x.assumeFact(st, x.paramInv(st, prm.Type(), v))
+		}
+		for _, mname := range strings.Split(h.Item.Options["modifies"], ",") {
+			if strings.TrimSpace(mname) == prm.Name() && mname != "" {
+				x.modifies = append(x.modifies, v)
+			}
 		}
 	}
 	outs := x.callFunc(st, h.Fn, args, nil)
@@ -141,6 +157,15 @@ func RunHarness(p *Program, h *Harness, cfg runCfg) (res *Result) {
 		return
 	}
 	q := c.Query(nil, negGoals, labels)
+	if h.Item != nil {
+		if t, err := strconv.Atoi(h.Item.Options["timeout"]); err == nil && t > 0 {
+			// the contract author declared this item slow: its own solver budget (quick and thorough)
+			if d := time.Duration(t) * time.Second; d > cfg.timeout {
+				cfg.timeout = d
+			}
+			res.BudgetMs = int64(t) * 1000
+		}
+	}
 	sr := Solve(q, cfg.scratch, h.Oblig, cfg.timeout)
 	if sr.Status == "unknown" && len(negGoals) > 1 {
 		// split: one query per path / side obligation
